@@ -299,9 +299,10 @@ def import_rules(ctx, model):
             if a is None:
                 continue
             if node.kind == "test":
-                for x in ast.walk(a):
+                from .common import _conj
+                for x, pol in _conj(a, label == "true"):
                     if isinstance(x, ast.Call) and norm(x.func) == "lexer.matchIf" and x.args \
-                            and norm(x.args[0]) == "'as'" and label == "true":
+                            and norm(x.args[0]) == "'as'" and pol:
                         as_taken = True
                 continue
             if isinstance(a, ast.Assign) and len(a.targets) == 1:
@@ -360,8 +361,9 @@ def import_rules(ctx, model):
             if a is None:
                 continue
             if node.kind == "test":
-                for x in ast.walk(a):
-                    if isinstance(x, ast.Call) and norm(x.func) == "lexer.matchIf" and x.args and label == "true":
+                from .common import _conj
+                for x, pol in _conj(a, label == "true"):
+                    if isinstance(x, ast.Call) and norm(x.func) == "lexer.matchIf" and x.args and pol:
                         t0 = norm(x.args[0])
                         if t0 == "'unqualified'":
                             form = "unqualified"
